@@ -42,6 +42,8 @@ def adversarial(pool):
         ('arr', pool.arr([interp.vflt(1)])), ('obj', pool.obj([['a', interp.vflt(1)]])), ('rx', ['regex']),
         # containers that contain themselves (arrayPush(a, a), objectSet(o, 'k', o)): comparing them recurses without end
         ('cyc', cyclic_arr(pool)), ('cyco', cyclic_obj(pool)),
+        # host-supplied date values that are not naive datetimes: timezone-aware (two offsets) and a plain date
+        ('dtaware', ['awaredate', '2024-03-10T12:00:00+05:30']), ('dtutc', ['awaredate', '2024-03-10T06:30:00+00:00']), ('donly', ['dateonly', '2024-03-10']),
     ]
 
 
